@@ -26,14 +26,14 @@ Definition sep_notify (s : sep) : bool := match s with Dot => true | Colon => fa
 
 (* one link of a name: trait f, then (for List/Dict/Set traits) the items of its value *)
 Definition link (f : fname) (n : bool) (cs : list graph) : graph :=
-  if is_container f then G f n [G (items_field f) n cs] else G f n cs.
+  if is_container f then G [f] n true [G [items_field f] n false cs] else G [f] n true cs.
 
 Fixpoint legacy_to_graph (e : ename) : option (list graph) :=
   match e with
   | [] => None
   | [(names, _)] =>
       (* the final attribute: a plain (non-container) trait, always notifying *)
-      if forallb (fun f => negb (is_container f)) names then Some (map (fun f => G f true []) names) else None
+      if forallb (fun f => negb (is_container f)) names then Some (map (fun f => G [f] true true []) names) else None
   | (names, s) :: rest =>
       match legacy_to_graph rest with
       | Some cs => Some (map (fun f => link f (sep_notify s) cs) names)
@@ -45,9 +45,9 @@ Fixpoint legacy_to_graph (e : ename) : option (list graph) :=
    of the user hook in [expected] (what a listener that does not count references reports) *)
 Definition user_hook_eqb (x : oid) (f : fname) (hk : oid * fname * kind) : bool :=
   let '(y, g, kd) := hk in
-  slot_eqb y g x f && match kd with KUser _ => true | KMaint _ _ => false end.
-Definition path_count (h : heap) (k : hkey) (gs : list graph) (r x : oid) (f : fname) : nat :=
-  length (filter (user_hook_eqb x f) (flat_map (fun g => expected h k g r) gs)).
+  slot_eqb y g x f && match kd with KUser _ => true | _ => false end.
+Definition path_count (t : traits) (h : heap) (k : hkey) (gs : list graph) (r x : oid) (f : fname) : nat :=
+  length (filter (user_hook_eqb x f) (flat_map (fun g => expected t h k g r) gs)).
 
 (* tree-shaped heaps: links go strictly up a rank (no cycle), no object is referenced twice *)
 Definition ranked (rank : oid -> nat) (h : heap) : Prop :=
@@ -55,10 +55,13 @@ Definition ranked (rank : oid -> nat) (h : heap) : Prop :=
 Definition unshared (h : heap) : Prop :=
   (forall x f, NoDup (h x f)) /\
   (forall x f x' f' y, In y (h x f) -> In y (h x' f') -> x = x' /\ f = f').
-(* the expression does not name the same trait twice among the alternatives of one item *)
+(* the graphs of a legacy name: every node observes exactly one trait, and the alternatives of one
+   item name different traits *)
+Definition gfield (g : graph) : fname := match g with G fs _ _ _ => hd 0 fs end.
 Fixpoint distinct_fields (g : graph) {struct g} : Prop :=
   match g with
-  | G _ _ cs =>
-      NoDup (map (fun c => match c with G f _ _ => f end) cs) /\
+  | G fs _ _ cs =>
+      (exists f, fs = [f]) /\
+      NoDup (map gfield cs) /\
       (fix all (l : list graph) : Prop := match l with [] => True | c :: l' => distinct_fields c /\ all l' end) cs
   end.
